@@ -4,10 +4,12 @@ P=$1; N=$(basename $P .diff); S=/tmp/tb_$N; rm -rf $S; mkdir -p $S
 git -C /repo archive HEAD | tar -x -C $S
 cd $S && git apply --unsafe-paths $P 2>/dev/null || patch -p1 -s < $P || { echo "$N patch failed"; exit 3; }
 cd /verif
+TAG=$(python3 -c "import hashlib,os,sys; print(hashlib.sha1(os.path.abspath(sys.argv[1]).encode()).hexdigest()[:10])" $S)
+export VERIF_KEEP_KANI_SCRATCH=1 VERIF_KEEP_NATIVE_SCRATCH=1   # one Kani / native build per scratch tree, reused by all checks below
 out=""
-for c in C01 C02 C03 C04 C05 C06 C08 C09 C10 C11 C12 C13 C14 C15 C16 C17 C19; do
+for c in C01 C02 C03 C04 C05 C06 C07 C08 C09 C10 C11 C12 C13 C14 C15 C16 C17 C18 C19; do
   ./check $c --repo $S > /tmp/tb_${N}_$c.log 2>&1; rc=$?
   if [ $rc -ne 0 ]; then out="$out $c=$rc"; fi
 done
-rm -rf $S
+rm -rf $S /verif/.cache/kani-target-scratch-$TAG /verif/.cache/native-target-scratch-$TAG /verif/.work/native-scratch-$TAG
 echo "$N:${out:- all quiet}"
